@@ -60,6 +60,16 @@ func (x *Exec) callStatic(bc *blockCtx, in ssa.Instruction, f *ssa.Function, bin
 	x.atCallObligations(bc, in, fnKey(f), args)
 	res := x.callStatic1(bc, in, f, binds, args)
 	x.curArgs = saved
+	if res != nil && x.spec == 0 && bc.fr.depth == 0 && in != nil {
+		if x.callRes == nil {
+			x.callRes = map[string]map[ssa.Instruction]*Val{}
+		}
+		k := fnKey(f)
+		if x.callRes[k] == nil {
+			x.callRes[k] = map[ssa.Instruction]*Val{}
+		}
+		x.callRes[k][in] = res
+	}
 	x.publishSnapshot(bc, fnKey(f))
 	return res
 }
